@@ -136,6 +136,7 @@ type Contracts struct {
 	Confined map[string]string // heap key -> token
 	Lemmas   []*Clause
 	PkgImmutable []*Clause // each: Src = variable name, Tags = properties resting on it
+	Impls        []*Clause // each: Src = "Struct.field *Type": the interface-typed field only ever holds that type (checked syntactically)
 }
 
 func newContracts() *Contracts {
@@ -145,7 +146,7 @@ func newContracts() *Contracts {
 }
 
 var topKeywords = map[string]bool{"func": true, "pred": true, "def": true, "fun": true, "axiom": true, "ghost": true, "lockinv": true,
-	"owned": true, "trusted": true, "immutable": true, "alloc": true, "lockorder": true, "chan": true, "env": true, "confined": true, "lemma": true, "pkgimmutable": true}
+	"owned": true, "trusted": true, "immutable": true, "alloc": true, "lockorder": true, "chan": true, "env": true, "confined": true, "lemma": true, "pkgimmutable": true, "impl": true}
 var fnKeywords = map[string]bool{"requires": true, "ensures": true, "loop": true, "invariant": true, "decreases": true,
 	"step": true, "let": true, "mode": true, "modifies": true, "ghostvar": true, "mathint": true, "thread": true,
 	"pure": true, "unroll": true, "noinline": true, "consumes": true, "opt": true, "effect": true, "atcall": true, "init": true, "exit": true, "writes": true, "local": true, "atreturn": true}
@@ -453,6 +454,16 @@ func (cs *Contracts) loadFile(path string) error {
 				return err
 			}
 			cs.PkgImmutable = append(cs.PkgImmutable, c)
+			cur, curLockInv = nil, nil
+		case "impl":
+			c, err := parseClause(d, d.text)
+			if err != nil {
+				return err
+			}
+			if len(strings.Fields(c.Src)) != 2 {
+				return fail("bad impl %q", d.text)
+			}
+			cs.Impls = append(cs.Impls, c)
 			cur, curLockInv = nil, nil
 		case "lemma":
 			c, err := parseClause(d, d.text)
